@@ -1,11 +1,14 @@
 /-
 C18 — Directory-entry, timestamp and 8.3-name codecs round-trip and match the FAT layout.
 
-Property theorems only; helper lemmas live in `Sdmmc.Lemmas.C18`.
+Property theorems only; helper lemmas live in `Sdmmc.Lemmas.C18` (and `Sdmmc.Lemmas.NameE5` for the
+0x05 substitution: a name whose first stored byte would be 0xE5 — the deleted-entry marker — is stored
+with 0x05 there, and 0x05 there prints as 0xE5).
 Model: `Sdmmc.Model.Timestamp`, `Sdmmc.Model.DirEntry`, `Sdmmc.Model.OnDisk`, `Sdmmc.Model.Sfn`.
 Spec: `Sdmmc.Spec.Name83`, the FAT field positions stated here.
 -/
 import Sdmmc.Lemmas.C18
+import Sdmmc.Lemmas.NameE5
 
 namespace Sdmmc.Props.C18
 open Sdmmc.Model
@@ -83,8 +86,9 @@ theorem dirent_roundtrip (ft : FatType) (e : DirEntry) (hname : e.name.length = 
     OnDisk.getEntry ft (e.serialize ft) e.entryBlock e.entryOffset = e :=
   Lemmas.C18.dirent_roundtrip ft e hname hattr hsize hcl hm hc hroot
 
-/-- Parsing a file name accepts exactly the valid 8.3 names over ISO-8859-1, upper-cases them
-and pads with spaces. -/
+/-- Parsing a file name accepts exactly the valid 8.3 names over ISO-8859-1, upper-cases them,
+pads with spaces, and stores 0x05 in the first byte iff the (upper-cased) first character is U+00E5
+(`Spec.Name83.firstByte`). -/
 theorem sfn_parse_iff (s : List Nat) (n : Bytes) :
     Sfn.createFromStr s = .ok n ↔ Spec.Name83.parse s = some n :=
   Lemmas.C18.sfn_parse_iff s n
@@ -94,10 +98,42 @@ theorem sfn_display_parse (s : List Nat) (n : Bytes) (h : Sfn.createFromStr s = 
     Sfn.createFromStr (Sfn.display n) = .ok n :=
   Lemmas.C18.sfn_display_parse s n h
 
+/-- Printing a parsed name gives the canonical spelling of what was parsed: upper-cased, a period
+only before a non-empty extension (`.` for the empty name) — the 0x05 of a stored `å…` prints as `å`. -/
+theorem sfn_parse_display (s : List Nat) (n : Bytes) (h : Sfn.createFromStr s = .ok n) :
+    Sfn.display n = Spec.Name83.canon s :=
+  Lemmas.NameE5.display_canon h
+
+/-- **For every name**: the stored first byte is never 0xE5, the deleted-entry marker. -/
+theorem sfn_first_byte_never_e5 (s : List Nat) (n : Bytes) (h : Sfn.createFromStr s = .ok n) :
+    n.head? ≠ some 0xE5 :=
+  Lemmas.NameE5.createFromStr_first_byte h
+
+/-- **The substitution rule, for every name**: the stored first byte is 0x05 iff the name begins with
+U+00E5 (ASCII upper-casing leaves U+00E5 alone and maps nothing else to it). -/
+theorem sfn_first_byte_05_iff (s : List Nat) (n : Bytes) (h : Sfn.createFromStr s = .ok n) :
+    n.head? = some (UInt8.ofNat 0x05) ↔ s.head? = some 0xE5 :=
+  Lemmas.NameE5.first_byte_05_iff h
+
+/-- U+0005 is a control character: a name containing it anywhere (in particular at the start) is
+refused — a stored 0x05 never stands for anything but U+00E5. -/
+theorem sfn_u0005_rejected (pre rest : List Nat) (n : Bytes) :
+    Sfn.createFromStr (pre ++ 0x05 :: rest) ≠ .ok n :=
+  Lemmas.NameE5.u0005_rejected pre rest n
+
 /-! Non-vacuity (tests, labelled as tests). -/
 example : FatTime (Timestamp.fromFat 0x4A8F 0xBF7D) := ⟨0x4A8F, 0xBF7D, by decide, by decide, by decide, by decide, rfl⟩
 example : Sfn.createFromStr [0x68, 0x69, 0x2E, 0x74, 0x78, 0x74] = .ok ([0x48, 0x49, 0x20, 0x20, 0x20, 0x20, 0x20, 0x20, 0x54, 0x58, 0x54].map UInt8.ofNat) := by decide
 example : Spec.Name83.parse [0x41, 0x2E, 0x2E, 0x42] = none := by decide
 example : Sfn.createFromStr [0x41, 0x2E, 0x2E, 0x42] = .error .MisplacedPeriod := by decide
+/-- `åb.c` is stored as `05 42 … 43 …` and prints as `åB.C`; `Åb` (U+00C5) is stored as is; `bå` keeps 0xE5 in
+the second byte; U+0005 is refused. -/
+example : Sfn.createFromStr [0xE5, 0x62, 0x2E, 0x63] = .ok ([0x05, 0x42, 0x20, 0x20, 0x20, 0x20, 0x20, 0x20, 0x43, 0x20, 0x20].map UInt8.ofNat) := by decide
+example : Sfn.display ([0x05, 0x42, 0x20, 0x20, 0x20, 0x20, 0x20, 0x20, 0x43, 0x20, 0x20].map UInt8.ofNat) = [0xE5, 0x42, 0x2E, 0x43] := by decide
+example : Spec.Name83.canon [0xE5, 0x62, 0x2E, 0x63] = [0xE5, 0x42, 0x2E, 0x43] := by decide
+example : Sfn.createFromStr [0xC5, 0x62] = .ok ([0xC5, 0x42, 0x20, 0x20, 0x20, 0x20, 0x20, 0x20, 0x20, 0x20, 0x20].map UInt8.ofNat) := by decide
+example : Sfn.createFromStr [0x62, 0xE5] = .ok ([0x42, 0xE5, 0x20, 0x20, 0x20, 0x20, 0x20, 0x20, 0x20, 0x20, 0x20].map UInt8.ofNat) := by decide
+example : Sfn.createFromStr [0x05, 0x62] = .error .InvalidCharacter := by decide
+example : Spec.Name83.parse [0xE5] = some ([0x05, 0x20, 0x20, 0x20, 0x20, 0x20, 0x20, 0x20, 0x20, 0x20, 0x20].map UInt8.ofNat) := by decide
 
 end Sdmmc.Props.C18
